@@ -50,12 +50,13 @@ VARIABLES cfg,       \* scenario
           ci,        \* next log index Commit looks at
           conv,      \* ConvertAllAllocatedToPipelined ran in this statement
           nfail, nstmt,
+          bad,       \* exploration bound: a Rollback / Discard did not restore the checkpoint (not expanded further)
           saved,     \* history: saved[i] = Proj when Len(ops) = i was last reached by a forward operation
           act,       \* label of the last action
           hist       \* labels since Init (export of behaviours)
 
-vars == <<cfg, pod, node, job, queue, ops, emitted, plan, phase, ci, conv, nfail, nstmt, saved, act, hist>>
-view == <<cfg, pod, node, job, queue, ops, emitted, plan, phase, ci, conv, nfail, nstmt>>
+vars == <<cfg, pod, node, job, queue, ops, emitted, plan, phase, ci, conv, nfail, nstmt, bad, saved, act, hist>>
+view == <<cfg, pod, node, job, queue, ops, emitted, plan, phase, ci, conv, nfail, nstmt, bad>>
 
 GpuMem == 100
 NoNode == ""
@@ -401,7 +402,7 @@ Init ==
   /\ job = [j \in Jobs |-> TruthJob(InitPod, j)]
   /\ queue = [q \in Queues |-> TruthQueue(InitPod, q)]
   /\ ops = <<>> /\ emitted = <<>> /\ plan = <<>> /\ phase = "open" /\ ci = 0 /\ conv = FALSE
-  /\ nfail = 0 /\ nstmt = 1
+  /\ nfail = 0 /\ nstmt = 1 /\ bad = FALSE
   /\ saved = [i \in 0..(MaxOps + 1) |-> IF i = 0 THEN ProjOf(InitPod, node, job, queue) ELSE <<>>]
   /\ act = Lbl("Init", "", "", FALSE, <<>>, 0, "", TRUE)
   /\ hist = <<>>
@@ -411,6 +412,7 @@ Apply(S, lbl, forward) ==
   /\ pod' = S.pod /\ node' = S.node /\ job' = S.job /\ queue' = S.queue /\ ops' = S.ops
   /\ act' = lbl /\ hist' = Append(hist, lbl)
   /\ saved' = IF forward /\ Len(S.ops) <= MaxOps + 1 THEN [saved EXCEPT ![Len(S.ops)] = ProjS(S)] ELSE saved
+  /\ bad' = (bad \/ (lbl.n = "Rollback" /\ ProjS(S) # saved[lbl.cp]) \/ (lbl.n = "Discard" /\ ProjS(S) # saved[0]))
   /\ UNCHANGED cfg
 
 Open == phase = "open" /\ ~conv
@@ -485,7 +487,7 @@ CommitBegin ==
   /\ phase = "open" /\ Len(ops) > 0
   /\ phase' = "committing" /\ ci' = 1 /\ emitted' = <<>> /\ plan' = ops
   /\ act' = Lbl("CommitBegin", "", "", FALSE, <<>>, 0, "", TRUE) /\ hist' = Append(hist, act')
-  /\ UNCHANGED <<cfg, pod, node, job, queue, ops, conv, nfail, nstmt, saved>>
+  /\ UNCHANGED <<cfg, pod, node, job, queue, ops, conv, nfail, nstmt, saved, bad>>
 
 CommitStep(ok) ==
   /\ phase = "committing"
@@ -506,10 +508,10 @@ CommitEnd ==
   /\ act' = Lbl("CommitEnd", "", "", FALSE, <<>>, 0, "", TRUE) /\ hist' = Append(hist, act')
   /\ saved' = [saved EXCEPT ![0] = Proj]
   /\ NewStatement
-  /\ UNCHANGED <<cfg, pod, node, job, queue, emitted, plan, nfail>>
+  /\ UNCHANGED <<cfg, pod, node, job, queue, emitted, plan, nfail, bad>>
 
 Next ==
-  /\ nstmt <= MaxStmts
+  /\ nstmt <= MaxStmts /\ ~bad
   /\ \/ \E p \in Pods : Evict(p) \/ Unevict(p)
      \/ \E p \in Pods, n \in Nodes, upd \in BOOLEAN : \E gs \in {<<>>} \cup {<<g>> : g \in Groups} : Pipeline(p, n, upd, gs)
      \/ \E p \in Pods, n \in Nodes : \E gs \in {<<>>} \cup {<<g>> : g \in Groups} : Allocate(p, n, gs)
@@ -521,16 +523,6 @@ Next ==
      \/ CommitEnd
 
 Spec == Init /\ [][Next]_vars
-
-\* exploration bound (CONSTRAINT): a defect that leaks accounting on every rollback would make the state space
-\* infinite; states whose node accounting is beyond twice the capacity (a pipelined pod may sit on top of a
-\* releasing one) are not expanded. The first leaking step is always within the bound and is judged.
-Bounded ==
-  \A n \in Nodes :
-    /\ node[n].uc <= 2 * cfg.nodes[n].cpu /\ node[n].uc >= 0 /\ node[n].ic >= 0 - cfg.nodes[n].cpu
-    /\ node[n].ug <= 2000 * NG(n) /\ node[n].ug >= 0 /\ node[n].ig >= 0 - 1000 * NG(n) /\ node[n].ig <= 2000 * NG(n)
-    /\ node[n].rg <= 2000 * NG(n) /\ node[n].rg >= 0 - 2000 * NG(n)
-    /\ \A g \in Groups : node[n].um[g] <= 2 * GpuMem /\ node[n].um[g] >= 0 /\ node[n].am[g] <= 2 * GpuMem /\ node[n].am[g] >= 0
 
 \* export of behaviours: one line per transition = the labels of a path from Init that ends with it
 PathOut == PrintT("PATH " \o ToJson(hist'))
